@@ -10,6 +10,7 @@ import (
 	"hv/env"
 	"hv/nd"
 
+	"github.com/terra-money/alliance/x/alliance/keeper"
 	"github.com/terra-money/alliance/x/alliance/types"
 )
 
@@ -179,4 +180,49 @@ func H_C14_warmup() {
 	}
 	nd.Assert(id+".ok", err == nil)
 	nd.Assert(id+".nopay", nd.And(bal(e, 0, 0).Equal(pre), e.Bank.Balance(Dels[0], env.BondDenom).Equal(preStake)))
+}
+
+// H_C14_govclock: a governance update of the decay parameters is not retroactive. If no decay was
+// scheduled before (rate 1 or interval 0) and the update changes rate or interval, the decay clock
+// restarts at the block time; if a decay was already scheduled, or nothing about the decay changes,
+// the clock is left alone.
+func H_C14_govclock() {
+	id := "C14.govclock"
+	idle := nd.Choice("previously", 3) // 0: rate 1 and interval 0, 1: rate 1 with an interval, 2: a decay is scheduled
+	t0 := nd.TimeRange("t0", TLo, THi)
+	e := env.New(t0, 100)
+	NewValidator(e, Vals[0], 3, math.NewInt(1000000), math.LegacyNewDec(1000000))
+	_ = e.K.SetParams(e.Ctx, types.Params{RewardDelayTime: time.Hour, TakeRateClaimInterval: 5 * time.Minute, LastTakeRateClaimTime: t0})
+	a := types.AllianceAsset{Denom: Denoms[0], RewardWeight: math.LegacyOneDec(),
+		RewardWeightRange: types.RewardWeightRange{Min: math.LegacyZeroDec(), Max: math.LegacyNewDec(10)},
+		TakeRate:          math.LegacyZeroDec(), TotalTokens: math.NewInt(1000), TotalValidatorShares: math.LegacyNewDec(1000),
+		RewardStartTime: nd.TimeRange("start", TLo, THi), RewardChangeRate: math.LegacyOneDec(), IsInitialized: true}
+	nd.Assume(!a.RewardStartTime.After(t0))
+	a.LastRewardChangeTime = nd.TimeRange("clast", TLo, THi)
+	nd.Assume(!a.LastRewardChangeTime.After(t0))
+	switch idle {
+	case 1:
+		a.RewardChangeInterval = nd.DurRange("civ", 1, int64(366*24*time.Hour))
+	case 2:
+		a.RewardChangeInterval = nd.DurRange("civ", 1, int64(366*24*time.Hour))
+		a.RewardChangeRate = nd.DecRange("crate", "0.000000000000000001", "2")
+		nd.Assume(!a.RewardChangeRate.Equal(math.LegacyOneDec()))
+	}
+	_ = e.K.SetAsset(e.Ctx, a)
+	msg := &types.MsgUpdateAlliance{Authority: e.Authority, Denom: Denoms[0], RewardWeight: a.RewardWeight, TakeRate: a.TakeRate,
+		RewardChangeRate:     nd.DecRange("m_cr", "0.000000000000000001", "2"),
+		RewardChangeInterval: nd.DurRange("m_ci", 0, int64(366*24*time.Hour)),
+		RewardWeightRange:    a.RewardWeightRange}
+	var err error
+	if Caught(func() { _, err = keeper.NewMsgServerImpl(e.K).UpdateAlliance(e.Ctx, msg) }) || err != nil {
+		return
+	}
+	nd.Reach(id)
+	post, _ := e.K.GetAssetByDenom(e.Ctx, Denoms[0])
+	changed := !msg.RewardChangeRate.Equal(a.RewardChangeRate) || msg.RewardChangeInterval != a.RewardChangeInterval
+	if changed && idle != 2 {
+		nd.Assert(id+".restart", post.LastRewardChangeTime.Equal(t0))
+	} else {
+		nd.Assert(id+".keep", post.LastRewardChangeTime.Equal(a.LastRewardChangeTime))
+	}
 }
